@@ -759,7 +759,12 @@ def h_symbols_do_not_touch_the_derivative_table(eng):
     variables.  get_symbol also runs for the symbols of called functions (same generator, bare names): it must leave the table alone.
     (C18's contract of Generator.get_symbol with this frame condition.)"""
     from contracts import C18
-    C18.h_get_symbol(eng)
+    try:
+        C18.h_get_symbol(eng)
+    finally:
+        # that harness replaces pymoca.tree by a stub; the other harnesses of this module execute the real one
+        for k_ in ("pymoca.tree", "casadi", "numpy"):
+            eng.ext_modules.pop(k_, None)
 
 
 HARNESSES = [("Generator.get_symbol leaves the derivative table alone", h_symbols_do_not_touch_the_derivative_table), ("tree.flatten_symbols: input/output only at top level", h_flattener_strips_nested_causality), ("Generator.exitClass", h_exit_class), ("Generator._ast_symbols_to_variables", h_symbols_to_variables),
